@@ -34,16 +34,23 @@ def setup_paths(fakes=True):
 
 
 _workdir = None
+_workdir_pid = None
 
 
 def workdir():
-    """Per-process scratch directory under /verif/.work, removed at exit."""
-    global _workdir
-    if _workdir is None or not os.path.isdir(_workdir):
-        d = os.path.join(VERIF_ROOT, ".work", "p%d" % os.getpid())
+    """Per-process scratch directory under /verif/.work/<main pid>/, removed when the main process exits."""
+    global _workdir, _workdir_pid
+    pid = os.getpid()
+    if _workdir is None or _workdir_pid != pid or not os.path.isdir(_workdir):
+        root = os.environ.get("LSF_WORK_ROOT")
+        if not root or not os.path.isdir(root):
+            root = os.path.join(VERIF_ROOT, ".work", "p%d" % pid)
+            os.makedirs(root, exist_ok=True)
+            os.environ["LSF_WORK_ROOT"] = root
+            atexit.register(shutil.rmtree, root, True)
+        d = os.path.join(root, "c%d" % pid)
         os.makedirs(d, exist_ok=True)
-        _workdir = d
-        atexit.register(shutil.rmtree, d, True)
+        _workdir, _workdir_pid = d, pid
     return _workdir
 
 
